@@ -105,6 +105,7 @@ func valueClass(r *rand.Rand, class int, shape []int) (*ref.T, string) {
 }
 
 func runC03(c *fw.Ctx) {
+	deeperBounds(!c.Quick())
 	R := c.Pick(5, 6)
 	shapes := Shapes(0, R, 3)
 
@@ -294,7 +295,7 @@ func runC03(c *fw.Ctx) {
 	}
 	for i := 0; i < c.Pick(600, 6000); i++ { // one long dimension (127..4097), incl. broadcasting a short operand along it
 		c.Case(func(k *fw.K) {
-			shape, _ := LongShape(k.Rng, 3, 4097)
+			shape, _ := LongShape(k.Rng, 3, 70000)
 			srcs := BroadcastSources(shape)
 			sb := srcs[k.Rng.Intn(len(srcs))]
 			k.Count("long_dimension_cases", 1)
@@ -304,7 +305,7 @@ func runC03(c *fw.Ctx) {
 	// sampled high-rank pairs
 	for i := 0; i < c.Pick(4000, 40000); i++ {
 		c.Case(func(k *fw.K) {
-			dst := RandShape(k.Rng, 5, 6, 3)
+			dst := RandShape(k.Rng, 5, maxSampledRank, 3)
 			srcs := BroadcastSources(dst)
 			var sa, sb []int
 			for {
